@@ -24,9 +24,19 @@ def streams(rng, tier, ctx):
         for i in range(n):
             r = rng.fork()
             it.op("=== gen%d" % i)
-            cfg = pick_cfg(r)
-            sim = H.lossy_scenario(r, it, tier, small_volume=True, cfg=cfg, modes=(0, 1, 2, 3, 3), max_len=2000)
+            if i % 4 == 3:
+                sim = c01.long_lead_scenario(r, it)
+            else:
+                cfg = pick_cfg(r)
+                sim = H.lossy_scenario(r, it, tier, small_volume=True, cfg=cfg, modes=(0, 1, 2, 3, 3), max_len=2000)
             H.finish(sim, drain=True, max_ticks=900)
+            if sim.drained and not sim.dead:
+                # a sync round (>= 2 s without data) lets the receiver's window pass packets that were sent once and lost,
+                # after which the sender's window is empty as well
+                lat = getattr(sim, "latency", 0)
+                sim.run(120, 50_000_000, Net(latency=lat), Net(latency=lat))
+                for ep in sim.eps:
+                    sim.probe(ep); sim.get(ep)
             cid = "r%d" % i
             cases.append((cid, sim.ops)); meta[cid] = sim
     finally:
